@@ -347,8 +347,11 @@ def _chunk(args):
       # stage 4: dynamics
       if comparable_dyn and passive_ok and not [b for b in cmp.bad if "zero_jacobian_equality" not in b[0] and not b[0].startswith("sensordata")]:
         sc = max(1.0, float(np.abs(mjd.qfrc_constraint).max()), float(np.abs(mjd.qfrc_passive).max()))
-        cmp.close("qfrc_constraint", d.qfrc_constraint.numpy()[w], mjd.qfrc_constraint, 5e-3, scale=sc)
-        cmp.close("qacc", d.qacc.numpy()[w], mjd.qacc, 5e-3, scale=float(np.abs(mjd.qacc).max()))
+        # element (not vertex) contacts of an interpolated flex: MJWarp spreads the force over the cell's nodes with inverse-distance weights
+        # (constraint.py: "TODO(flex): Replace inverse-distance contact weights with barycentric weights"), MuJoCo with the element's barycentric ones
+        tag = "@interpolated_element_contact_weights" if c["dof"] == "trilinear" and any(max(x["elem"]) >= 0 and max(x["key"][0]) >= 0 for x in cb_all) else ""
+        cmp.close("qfrc_constraint" + tag, d.qfrc_constraint.numpy()[w], mjd.qfrc_constraint, 5e-3, scale=sc)
+        cmp.close("qacc" + tag, d.qacc.numpy()[w], mjd.qacc, 5e-3, scale=float(np.abs(mjd.qacc).max()))
     if refuse:
       out.append(("skip:mujoco_fatal_error", None, None))
       continue
